@@ -1,5 +1,7 @@
 package main
 
+import "sync"
+
 // Read histories over one Number and views derived from it (C04, C07, C17, and with counting sources C06).
 //
 //	Hist <T|G> nraw raw.. nrep rep.. exp nops op..   =>  answers (flattened, all integers)
@@ -39,6 +41,79 @@ func runHist(c *Case) []string {
 	}
 	st := &histState{ver: c.Ver, views: []View{base}, src: src}
 	n := a.int()
+	return execHist(st, a, n)
+}
+
+// runConc: the same base Number read by several goroutines at once, each running its own history
+// (views and iterators are per goroutine; the Number and its memoizer are shared).
+//
+//	Conc <T|G> nraw.. nrep.. exp  g  nops_1 op.. nops_2 op.. ...   =>  ntok_1 answers_1 ntok_2 answers_2 ...
+func runConc(c *Case) []string {
+	a := &cur{t: c.Args}
+	kind, raw, rep, exp := parseBase(a)
+	base, src, errs := makeTestNumber(c.Ver, kind, raw, rep, exp)
+	if errs != "" {
+		return []string{errs}
+	}
+	g := a.int()
+	// split the argument tokens per goroutine first (parsing is sequential)
+	progs := make([][]string, g)
+	counts := make([]int, g)
+	for i := 0; i < g; i++ {
+		n := a.int()
+		counts[i] = n
+		start := a.i
+		for k := 0; k < n; k++ {
+			skipHistOp(a)
+		}
+		progs[i] = a.t[start:a.i]
+	}
+	answers := make([]toks, g)
+	var wg sync.WaitGroup
+	for i := 0; i < g; i++ {
+		wg.Add(1)
+		go func(i int) {
+			defer wg.Done()
+			defer func() {
+				if e := recover(); e != nil {
+					answers[i] = toks{"PANIC"}
+				}
+			}()
+			st := &histState{ver: c.Ver, views: []View{base}, src: src}
+			answers[i] = execHist(st, &cur{t: progs[i]}, counts[i])
+		}(i)
+	}
+	wg.Wait()
+	var out toks
+	for i := 0; i < g; i++ {
+		out.i(len(answers[i]))
+		out = append(out, answers[i]...)
+	}
+	return out
+}
+
+// skipHistOp advances the cursor over one history op.
+func skipHistOp(a *cur) {
+	switch a.next() {
+	case "WS", "WE", "FWS", "WSG", "AT":
+		a.next()
+		a.next()
+	case "NEW":
+		a.next()
+		if a.next() == "IA1" {
+			a.next()
+		}
+	case "NX", "STR", "ND":
+		a.next()
+	case "RUN":
+		a.next()
+		a.next()
+		a.next()
+	case "CNT":
+	}
+}
+
+func execHist(st *histState, a *cur, n int) toks {
 	var out toks
 	derived := func(v View, ok bool) {
 		if !ok {
